@@ -329,12 +329,71 @@ func vrtNewProviderWith(st *vrtStore, symbolicWant bool) *Provider {
 			WantAuthRequestsSigned: want,
 		},
 	}
+	if vrtMetaSign {
+		// the provider signs its metadata (with the algorithm it signs responses with)
+		conf.MetadataConfig = &MetadataConfig{SignatureAlgorithm: alg}
+		vrtMetaSign = false
+	}
 	p, err := NewProvider(st, StaticIssuer(vrtIssuer), conf)
 	if err != nil {
 		vrtFail("harness.NewProvider-failed")
 		panic(vrtStop{"NewProvider failed"})
 	}
 	return p
+}
+
+// vrtMetaSign: the next provider built by vrtNewProviderWith signs its metadata.
+var vrtMetaSign bool
+
+// vrtEarlierRequest is the history dimension (DESIGN §9.6): before the request
+// under test the same provider has served another client - kind 1: the completed
+// login callback of another session (its own stored request, user and audience,
+// all symbolic and independent of the request under test), kind 2: a metadata
+// request. The earlier request is nominal (no faults, regular key material); the
+// storage's bookkeeping is reset afterwards, so every assertion that follows
+// speaks about the request under test alone. A reply that depends on the
+// earlier client (a memo, a cache keyed too coarsely, a pooled object) then
+// violates the assertions of the property it breaks, and the same two requests
+// reproduce it natively.
+func vrtEarlierRequest(p *Provider, st *vrtStore, kind int) {
+	if kind == 0 {
+		return
+	}
+	calls, faulted, seq := st.calls, st.faulted, st.seq
+	authReq, user, entityID, noFaults, keyShapes := st.authReq, st.user, st.entityID, st.noFaults, st.keyShapes
+	st.calls, st.faulted, st.seq = nil, false, nil
+	st.noFaults, st.keyShapes = true, false
+	switch kind {
+	case 1:
+		h := &vrtAuthReq{
+			id: vrtStr("hist.authreq.id"), appID: vrtStr("hist.authreq.appID"), relayState: vrtStr("hist.authreq.relayState"),
+			acsURL: vrtStr("hist.authreq.acsURL"), authRequestID: vrtStr("hist.authreq.requestID"), userID: vrtStr("hist.authreq.userID"),
+			done: true, binding: PostBinding,
+		}
+		vrtAssume(vrtHasPrefix(h.acsURL, "https://"))
+		vrtAssume(h.id != "")
+		vrtAssume(h.relayState != "")
+		if vrtBool("hist.authreq.redirect") {
+			h.binding = RedirectBinding
+		}
+		st.authReq = h
+		st.user = vrtNewUser("hist.user", false, 0, 0)
+		vrtAssume(st.user.email != "")
+		vrtAssume(st.user.username != "")
+		st.entityID = vrtStr("hist.audience")
+		rb := vrtNewRequest("hist.req", "GET", "/login")
+		vrtReqNoExtras(rb)
+		vrtReqParam(rb, "id", true, h.id, false, "")
+		vrtAssume(!vrtBool("hist.req.parsefail"))
+		vrtServe(p, rb)
+	default:
+		rb := vrtNewRequest("hist.req", "GET", "/metadata")
+		vrtReqNoExtras(rb)
+		vrtAssume(!vrtBool("hist.req.parsefail"))
+		vrtServe(p, rb)
+	}
+	st.calls, st.faulted, st.seq = calls, faulted, seq
+	st.authReq, st.user, st.entityID, st.noFaults, st.keyShapes = authReq, user, entityID, noFaults, keyShapes
 }
 
 // vrtServe sends one request through the public handler, recovering panics.
